@@ -390,3 +390,43 @@ def eps_oracle(history, delta, alphas=None, slack=1e-6):
                 f"RDPAccountant.get_epsilon(delta={delta}) = {eps} on history {history} is below a numerical lower bound {low} on the true epsilon of the composed mechanism",
                 {"history": history, "delta": delta, "observed": eps, "lower_bound": low, "alphas": alphas})
     return None
+
+
+# --------------------------------------------------------------------------- one accountant object, several ledgers
+def reused_accountant_oracle(rng, mech="rdp", delta=1e-5):
+    """PROPERTY on the real code: the reported epsilon is a function of the CURRENT ledger only.  One accountant object is
+    queried, its ledger is replaced (assignment, load_state_dict of another run's state, roll-back to an earlier
+    checkpoint) by a history with the same number of runs and the same last run but different earlier runs, and queried
+    again: the answer must be the one a fresh accountant gives for that ledger.  Returns None or a finding triple."""
+    from opacus.accountants import create_accountant
+
+    k = rng.randint(2, 4)
+    last = (round(rng.uniform(0.7, 1.5), 3), rng.choice([0.05, 0.1, 0.125]), rng.randint(2, 12))
+    h1 = [(round(rng.uniform(0.8, 2.0), 3), rng.choice([0.05, 0.1, 0.125]), rng.randint(5, 40)) for _ in range(k - 1)] + [last]
+    h2 = [(round(s * rng.choice([0.6, 1.7]), 3), q, n + rng.randint(1, 30)) for s, q, n in h1[:-1]] + [last]
+    how = rng.choice(["assign", "load_state_dict", "assign-same-list-object"])
+    kw = {"eps_error": 0.01} if mech == "prv" else {}
+
+    def fresh(h):
+        a = create_accountant(mechanism=mech)
+        a.history = [tuple(x) for x in h]
+        return float(a.get_epsilon(delta, **kw))
+
+    acc = create_accountant(mechanism=mech)
+    acc.history = [tuple(x) for x in h1]
+    e1 = float(acc.get_epsilon(delta, **kw))
+    if how == "assign":
+        acc.history = [tuple(x) for x in h2]
+    elif how == "load_state_dict":
+        other = create_accountant(mechanism=mech)
+        other.history = [tuple(x) for x in h2]
+        acc.load_state_dict(other.state_dict())
+    else:
+        acc.history[:] = [tuple(x) for x in h2]
+    e2 = float(acc.get_epsilon(delta, **kw))
+    want = fresh(h2)
+    if e2 != want:
+        return (f"C06:stale-ledger:{mech}" if mech == "rdp" else f"C05:stale-ledger:{mech}",
+                f"{type(acc).__name__}: queried on {h1} (eps {e1}), ledger replaced ({how}) by {h2}: reports {e2}; a fresh accountant on that ledger reports {want}",
+                {"failing_input": {"oracle": "reused-accountant", "mech": mech, "h1": h1, "h2": h2, "how": how, "delta": delta}})
+    return None
